@@ -29,110 +29,73 @@ func runC15(c *Ctx) {
 	c.rule("R15.6", "exit cleanup registered before every return of the loop")
 
 	// ---- R15.1
-	if c.needWS("R15.1", "spawn", w.Spawn) && c.need("R15.1", "FN_loop", r.FnLoop != nil) {
-		construct := fmt.Sprintf("%s: context of the handler goroutine", fname(w.Spawn))
-		var spCtx *ssa.Parameter
-		for _, prm := range w.Spawn.Params {
-			if isNamed(prm.Type(), "context", "Context") {
-				spCtx = prm
-			}
+	if c.need("R15.1", "FN_loop", r.FnLoop != nil) {
+		invs := c.dispInvokes()
+		if len(invs) == 0 {
+			c.und("R15.1", "context of the handler goroutine", "-", "no dispatcher invocation found")
 		}
-		n := 0
-		for _, g := range withAnon(w.Spawn) {
-			allInstrs(g, func(in ssa.Instruction) {
-				ci, ok := in.(ssa.CallInstruction)
-				if !ok || !ci.Common().IsInvoke() || r.IDisp == nil || ci.Common().Value.Type() != types.Type(r.IDisp) {
-					return
-				}
-				n++
-				var arg ssa.Value
-				for _, a := range ci.Common().Args {
-					if isNamed(a.Type(), "context", "Context") {
-						arg = a
-					}
-				}
-				good := arg != nil && spCtx != nil && c.ctxDerives(arg, func(v ssa.Value) bool { return v == ssa.Value(spCtx) }, 0, map[ssa.Value]bool{})
-				c.check(good, "R15.1", construct, c.ipos(in), "derives from the spawner's (per-connection) context", "the handler's context does not derive from the per-connection context: it survives the end of its connection")
-			})
-		}
-		if n == 0 {
-			c.und("R15.1", construct, p.pos(w.Spawn.Pos()), "no dispatcher invocation found")
-		}
-		// chain loop -> executor -> switch -> spawner (shared with C06)
-		cons2 := fmt.Sprintf("%s: per-connection context reaches the spawner", fname(r.FnLoop))
-		okAll, nspawn := true, 0
-		allInstrs(r.FnLoop, func(in ssa.Instruction) {
-			g, ok := in.(*ssa.Go)
-			if !ok || p.unbound(staticCallee(g)) != r.FnExec {
-				return
-			}
-			nspawn++
+		for _, in := range invs {
+			construct := fmt.Sprintf("%s: context of the handler goroutine", fname(outermost(in.Parent())))
 			var arg ssa.Value
-			for _, a := range g.Common().Args {
+			for _, a := range in.(ssa.CallInstruction).Common().Args {
 				if isNamed(a.Type(), "context", "Context") {
 					arg = a
 				}
 			}
-			if arg == nil || !c.isLoopCtx(arg) {
-				okAll = false
-			}
-		})
-		chain := []*ssa.Function{r.FnExec, w.FrameSwitch, w.Spawn}
-		for i := 0; i+1 < len(chain); i++ {
-			if chain[i] == nil || chain[i+1] == nil {
-				okAll = false
-				continue
-			}
-			sites := callsTo(chain[i], chain[i+1])
-			if len(sites) == 0 {
-				okAll = false
-			}
-			for _, s := range sites {
-				passed := false
-				for _, a := range s.Common().Args {
-					if isNamed(a.Type(), "context", "Context") && c.isParamCopyCtx(a, chain[i]) {
-						passed = true
-					}
-				}
-				if !passed {
-					okAll = false
-				}
-			}
+			good := arg != nil && c.ctxDerives(arg, c.isLoopCtxRoot, 0, map[ssa.Value]bool{})
+			c.check(good, "R15.1", construct, c.ipos(in), "derives (through cancellation-preserving steps only) from the per-connection context whose cancel is deferred in the loop",
+				"the handler's context does not derive from the per-connection context that the loop cancels when it exits: it survives the end of its connection")
 		}
-		c.check(okAll && nspawn > 0, "R15.1", cons2, p.pos(r.FnLoop.Pos()), "WithCancel in the loop (cancel deferred) -> executor -> frame switch -> spawner", "the context handed down to the handlers is not the per-connection context that the loop cancels when it exits")
-		// failer cancels every handling entry
-		if c.needWS("R15.1", "failer", w.Failer) {
-			cons3 := fmt.Sprintf("%s: cancels every running handler", fname(w.Failer))
-			var call ssa.Instruction
-			allInstrs(w.Failer, func(in ssa.Instruction) {
+		// the connection-loss sweep cancels every running handler
+		cons3 := "connection-loss sweep cancels every running handler"
+		var call ssa.Instruction
+		for _, fn := range p.Funcs {
+			allInstrsRaw(fn, func(in ssa.Instruction) {
 				ci, ok := in.(*ssa.Call)
-				if !ok || ci.Common().IsInvoke() {
+				if !ok || ci.Common().IsInvoke() || ci.Common().Value == nil {
 					return
 				}
 				if ex, ok := ci.Common().Value.(*ssa.Extract); ok {
 					if nx, ok := ex.Tuple.(*ssa.Next); ok {
-						if rg, ok := nx.Iter.(*ssa.Range); ok && isLoadOf(rg.X, r.FHandling) {
+						if rg, ok := nx.Iter.(*ssa.Range); ok && c.fieldVal(rg.X, r.FHandling) {
 							call = in
 						}
 					}
 				}
 			})
-			if call == nil {
-				c.bad("R15.1", cons3, p.pos(w.Failer.Pos()), "the failer no longer sweeps the handling table: handlers of id-bearing calls keep running after a connection loss")
-			} else {
-				uncond := true
-				for _, cf := range expandConds(impliedConds(call.Block())) {
-					if ex, ok := cf.Cond.(*ssa.Extract); ok {
-						if _, ok := ex.Tuple.(*ssa.Next); ok {
-							continue
-						}
-					}
-					if u, ok := cf.Cond.(*ssa.UnOp); ok && u.Op == token.NOT {
+		}
+		if call == nil {
+			c.bad("R15.1", cons3, "-", "nothing sweeps the handling table any more: handlers of id-bearing calls keep running after a connection loss")
+		} else {
+			uncond := true
+			for _, cf := range expandConds(impliedConds(call.Block())) {
+				if ex, ok := cf.Cond.(*ssa.Extract); ok {
+					if _, ok := ex.Tuple.(*ssa.Next); ok {
 						continue
 					}
-					uncond = false
 				}
-				c.check(uncond, "R15.1", cons3, c.ipos(call), "unconditional cancel in the range body", "only some handling entries are cancelled")
+				if u, ok := cf.Cond.(*ssa.UnOp); ok && u.Op == token.NOT {
+					continue
+				}
+				uncond = false
+			}
+			c.check(uncond, "R15.1", cons3, c.ipos(call), "unconditional cancel in the range body", "only some handling entries are cancelled")
+			// and the sweep runs on every loop exit and on every loss path
+			sweep := func(in ssa.Instruction) bool { return c.isRangeOver(in, r.FHandling) }
+			ranOnExit := false
+			for _, d := range w.Defers {
+				tgt := p.unbound(staticCallee(d))
+				if tgt != nil && p.allFns[tgt] {
+					p.coneInstrs(tgt, func(x ssa.Instruction) {
+						if sweep(x) {
+							ranOnExit = true
+						}
+					})
+				}
+			}
+			c.check(ranOnExit, "R15.1", cons3+" (on loop exit)", c.ipos(call), "part of the deferred cleanup", "the sweep is not part of the loop's deferred cleanup")
+			for _, g := range c.redialSpawns() {
+				c.check(mustPrecedeIP(g, sweep, 0), "R15.1", cons3+" (before redial)", c.ipos(g), "runs on every loss path", "a loss path reconnects without cancelling the handlers of the lost connection")
 			}
 		}
 	}
